@@ -27,7 +27,7 @@ COQ_FALLBACK = ("Model.C12", "spec_ok")
 COQ_IMPORTS = ""
 SHARD = 150
 EXHAUSTIVE = {}
-RULE = ("masks of shape 1x1..7x8 (mostly non-square; styles: random density 0.15-0.9, single pixel, ring with hole, full, two "
+RULE = ("masks of shape 1x1..7x8, 6% up to 21x24 (mostly non-square; styles: random density 0.15-0.9, single pixel, ring with hole, full, two "
         "components, outer-ring pixels, circular), pixel scales (py, px) in {1/4,1/2,1,3/2,2,3}^2 (often unequal), in 30% of the cases "
         "times 2^e with e in {-30,-27,10,20} per axis (tiny and huge magnitudes, 40% of them with a different e per axis), origin o = "
         "(py*a/4, px*b/4) and translation d = (py*e/4, px*f/4), a,b,e,f in -12..12, d != 0 (sometimes o = 0, sometimes one component "
@@ -335,10 +335,12 @@ def rand_frame(rng, zero_origin=False, scaled=True, same_exp=False):
     if scaled and rng.random() < 0.3:
         ey = rng.choice(SCALE_EXPS); ex = ey if (same_exp or rng.random() < 0.6) else rng.choice(SCALE_EXPS)
         ps = (ps[0] * F(2) ** ey, ps[1] * F(2) ** ex)
-    o = (ps[0] * F(rng.randint(-12, 12), 4), ps[1] * F(rng.randint(-12, 12), 4))
+    far = rng.choice([12, 12, 12, 12, 12, 12, 12, 12, 400, 4096])     # (h) origins / translations far outside the frame (up to 1000 pixels)
+    o = (ps[0] * F(rng.randint(-far, far), 4), ps[1] * F(rng.randint(-far, far), 4))
     if zero_origin or rng.random() < 0.15: o = (F(0), F(0))
     while True:
-        d = (ps[0] * F(rng.randint(-12, 12), 4), ps[1] * F(rng.randint(-12, 12), 4))
+        fd = rng.choice([12, 12, 12, far])
+        d = (ps[0] * F(rng.randint(-fd, fd), 4), ps[1] * F(rng.randint(-fd, fd), 4))
         if rng.random() < 0.2: d = (d[0], F(0)) if rng.random() < 0.5 else (F(0), d[1])
         if d != (0, 0) and padd(o, d) != (0, 0): break
     return ps, o, d
@@ -356,6 +358,7 @@ def gen_inputs(tier, rng):
         for op in GRID_OPS:
             H, W = rng.randint(1, 7), rng.randint(1, 8)
             if rng.random() < 0.15: W = H
+            if rng.random() < 0.06 and not op.startswith("ds_") and op not in ("rect_mapper", "rescaled"): H, W = rng.randint(9, 21), rng.randint(9, 24)      # (h) larger frames
             style = rng.choice(STYLES)
             # (the radial projection steps along x with the pixel scale of the longer axis: the two scales must be commensurable
             # for the sums to be exact in doubles, so both axes get the same power of two there)
@@ -431,6 +434,7 @@ def run_case(inp):
     m = inp["m"]
     nun = sum(1 for r in m for b in r if not b)
     prm = PARAMS[op](rng, m, ps) if op in PARAMS else {}
+    prm["_d"] = d
     SHARED.clear()
     cfg = config_for(inp)
     with pushed_config(cfg):
@@ -460,9 +464,10 @@ def run_pair(aa, inp, op, m, ps, o, o2, d, prm, nun, cfg):
         if ch: ok, why = False, ch
     assert len(a["coq"]) == len(b["coq"])
     cases = [f"(KPair {cpt(d)} {x} {y})" for x, y in zip(a["coq"], b["coq"])]
-    return {"coq": cases[0] if cases else None, "extra_coq": cases[1:], "py_ok": ok, "kind": op,
+    return {"coq": cases[0] if cases else None, "extra_coq": cases[1:], "py_ok": ok, "kind": op + (":inexact-tolerance" if a.get("tol") else ""),
             "nontrivial": nun >= 2, "out": {"at_o": a["show"], "at_o_plus_d": b["show"], "relation": why, "params": str(prm)[:300],
                                             "routes": str([ra, rb]), "config": str(cfg)},
+
             "detail": why}
 
 def relate(ra, rb, d):
@@ -481,6 +486,13 @@ def relate(ra, rb, d):
             if (va is None) != (vb is None) or (va is not None and padd(va, d) != vb): return False, f"point not translated by d: {va} -> {vb}"
         elif ta == "extent":
             if (va[0] + d[1], va[1] + d[1], va[2] + d[0], va[3] + d[0]) != vb: return False, f"extent not translated: {va} -> {vb}"
+        elif ta == "grid~":       # inexact quotients (non-dyadic): translated by d within 1e-9 relative to the pixel scale / magnitude
+            (tol, ga), (_, gb) = va, vb
+            if len(ga) != len(gb) or any(abs(q[i] - (p[i] + d[i])) > F(1, 10 ** 9) * max(tol[i], abs(q[i])) for p, q in zip(ga, gb) for i in (0, 1)):
+                return False, f"grid not translated by d (tolerance 1e-9): first points {jg(ga[:2])} -> {jg(gb[:2])} (lengths {len(ga)}, {len(gb)})"
+        elif ta == "inv~":
+            if len(va) != len(vb) or any(abs(x - y) > F(1, 10 ** 9) * max(abs(x), abs(y)) for x, y in zip(va, vb)):
+                return False, f"scale-valued result changed with the origin: {[str(v) for v in va]} -> {[str(v) for v in vb]}"
         elif ta == "grid1":
             ax = va[0]
             if ax != vb[0] or [v + d[ax] for v in va[1]] != list(vb[1]): return False, f"1-D coordinates (axis {ax}) not translated by d[{ax}]: {[str(v) for v in va[1][:3]]} -> {[str(v) for v in vb[1][:3]]}"
@@ -592,7 +604,7 @@ def obj_fp(x, depth=0):
     if isinstance(x, type) or callable(x) and not hasattr(x, "__dict__"): return repr(x)
     d = getattr(x, "__dict__", None)
     if d is None or depth > 4: return type(x).__name__
-    return ("obj", type(x).__name__, tuple(sorted((k, obj_fp(v, depth + 1)) for k, v in d.items())))
+    return ("obj", type(x).__name__, tuple(sorted((k, obj_fp(v, depth + 1)) for k, v in d.items() if k != "run_time_dict")))     # (profiling slot, reset by every call)
 def fp_kept(before, after):
     """every attribute present BEFORE still has its value (attributes added later, e.g. lazily cached values, are allowed at the
     top level only: what they hold shows in the results of the second evaluation)"""
@@ -749,9 +761,29 @@ def overlay_exact(m, ps, o, sy, sx):
             if not dyadic(coord) or not fdiv_exact(coord, p): return False
     return True
 
+def overlay_margin(m, ps, sy, sx):
+    """distance (in pixels) of the overlay centres from the nearest pixel boundary of the mask: the only discontinuous decision"""
+    H, W = len(m), len(m[0]); worst = F(1)
+    ys = [y for y in range(H) for x in range(W) if not m[y][x]]; xs = [x for y in range(H) for x in range(W) if not m[y][x]]
+    for idx, n, s in ((ys, H, sy), (xs, W, sx)):
+        span = F(max(idx) - min(idx) + 1); p2 = span / s
+        cen = F(max(idx) + min(idx), 2)                      # in pixel units, from pixel 0
+        for k in range(s):
+            q = cen + (k - F(s - 1, 2)) * p2 + F(1, 2)       # float pixel position of the overlay centre
+            worst = min(worst, abs(q - round(q)))
+    return worst
+
 def op_overlay(aa, m, ps, o, dd, prm):
     sy, sx = prm["shape"]
-    if not overlay_exact(m, ps, o, sy, sx): return None
+    oa = (o[0] - dd[0], o[1] - dd[1]); ob = padd(oa, prm["_d"])
+    if not (overlay_exact(m, ps, oa, sy, sx) and overlay_exact(m, ps, ob, sy, sx)):
+        # (h) the model comparison is not exact for this input: the PROPERTY is still evaluated on the implementation's output, with a
+        # tolerance, provided the only discontinuous decision (which mask pixel holds an overlay centre) is taken at a margin
+        if overlay_margin(m, ps, sy, sx) < F(1, 10 ** 6): return None
+        mask = mk_mask(aa, m, ps, o)
+        try: g = grid_out(SHARED.setdefault("overlay", aa.image_mesh.Overlay(shape=(sy, sx))).image_plane_mesh_grid_from(mask=mask))
+        except IndexError: g = None
+        return {"coq": [], "rel": [("grid~", (ps, g))] if g is not None else [("inv", "IndexError")], "show": "inexact: " + str(jg(g[:4]) if g else "IndexError"), "tol": True}
     mask = mk_mask(aa, m, ps, o)
     try:
         # ONE Overlay object serves the mask at o and the mask at o + d (and is evaluated again afterwards)
@@ -813,16 +845,33 @@ def op_scaled_of_pixels(aa, m, ps, o, dd, prm):
 def op_rect_mapper(aa, m, ps, o, dd, prm):
     """MapperRectangular on the (translated) unmasked grid of the mask, mesh = Mesh2DRectangular.overlay_grid"""
     sy, sx = prm["shape"]; buf = prm["buffer"]
+    via_mesh = prm.get("via_mesh") and sy >= 3 and sx >= 3          # (mesh.Rectangular wants at least 3 x 3)
+    if via_mesh: buf = F(1, 10 ** 8)          # mesh.Rectangular.mesh_grid_from uses overlay_grid's default buffer
     mask = mk_mask(aa, m, ps, o)
     grid = mk_grid(aa, mask)
     gl = grid_out(grid)
-    for vs, s in (([p[0] for p in gl], sy), ([p[1] for p in gl], sx)):
+    oa = (o[0] - dd[0], o[1] - dd[1]); ob = padd(oa, prm["_d"])
+    exact = not via_mesh; margin = F(1)
+    for ax, s in ((0, sy), (1, sx)):
+        vs = [p[ax] for p in gl]
         lo, hi = min(vs), max(vs)
         p2 = (hi - lo + 2 * buf) / s
-        if not dyadic(p2) or not fdiv_exact((hi + lo) / 2, p2): return None
-        if any(not fdiv_exact(v, p2) for v in vs): return None
-    mesh = aa.Mesh2DRectangular.overlay_grid(shape_native=(sy, sx), grid=grid, buffer=fl(buf))
-    mg = aa.MapperGrids(mask=mask, source_plane_data_grid=grid, source_plane_mesh_grid=mesh)
+        for oo in (oa, ob):      # exactness must hold at both origins (the values at the other origin are these + or - d)
+            sh = oo[ax] - o[ax]
+            if not dyadic(p2) or not fdiv_exact((hi + lo) / 2 + sh, p2) or any(not fdiv_exact(v + sh, p2) for v in vs): exact = False
+            if not (dyadic(hi + sh + buf, 48) and dyadic(lo + sh - buf, 48) and dyadic(hi + lo + 2 * sh, 48)): exact = False     # y_max + buffer, y_min - buffer, their sum
+        if hi == lo: margin = F(0)       # a one-row / one-column grid: the mesh spans 2 * buffer only (cancellation): exact path only
+        for v in vs:
+            t = (v - lo + buf) / p2; margin = min(margin, abs(t - round(t)))
+    if not exact and margin < F(1, 10 ** 9): return None        # a data point on a mesh-pixel boundary: the index table may flip by rounding
+    if via_mesh:
+        # the public route: mesh.Rectangular(...).mapper_grids_from with its shared default Preloads() (fingerprinted)
+        mo = SHARED.setdefault("rect_mesh", aa.mesh.Rectangular(shape=(sy, sx)))
+        mg = mo.mapper_grids_from(mask=mask, source_plane_data_grid=grid, border_relocator=None)
+        mesh = mg.source_plane_mesh_grid
+    else:
+        mesh = aa.Mesh2DRectangular.overlay_grid(shape_native=(sy, sx), grid=grid, buffer=fl(buf))
+        mg = aa.MapperGrids(mask=mask, source_plane_data_grid=grid, source_plane_mesh_grid=mesh)
     mapper = aa.Mapper(mapper_grids=mg, over_sampler=aa.OverSamplerUniform(mask=mask, sub_size=1), regularization=None)
     maps = [int(v) for v in np.asarray(mapper.pix_indexes_for_sub_slim_index).ravel()]
     sizes = [int(v) for v in np.asarray(mapper.pix_sizes_for_sub_slim_index).ravel()]
@@ -831,6 +880,10 @@ def op_rect_mapper(aa, m, ps, o, dd, prm):
     mps_ = (fr(mesh.pixel_scales[0]), fr(mesh.pixel_scales[1])); morg = (fr(mesh.origin[0]), fr(mesh.origin[1]))
     meshg = grid_out(mesh)
     nb = [[int(v) for v in r] for r in np.asarray(mesh.neighbors)]
+    if not exact:
+        mps_t = tuple(abs(v) for v in mps_)
+        return {"coq": [], "rel": [("inv", maps), ("inv", sizes), ("inv", wts), ("inv", mm), ("grid~", (mps_t, [morg])), ("grid~", (mps_t, meshg)), ("inv", nb), ("inv~", list(mps_))],
+                "show": "inexact: " + str(maps), "tol": True}
     return {"coq": [f"(KRect {cz(sy)} {cz(sx)} {cgrid(gl)} {cq(buf)} {cpt(mps_)} {cpt(morg)} {cgrid(meshg)} {clist([cz(i) for i in maps])})"],
             "rel": [("inv", maps), ("inv", sizes), ("inv", wts), ("inv", mm), ("inv", mps_), ("point", morg), ("grid", meshg), ("inv", nb)],
             "show": str(maps)}
@@ -1203,7 +1256,7 @@ PARAMS = {
     "pixel_coords": lambda rng, m, ps: {"pts": pts_for(rng, m, ps), "pix": [(F(rng.randint(-8, 40), 4), F(rng.randint(-8, 40), 4)) for _ in range(4)]},
     "pixel_grids": lambda rng, m, ps: {"pts": pts_for(rng, m, ps)},
     "scaled_of_pixels": lambda rng, m, ps: {"pix": [(F(rng.randint(-8, 40), 4), F(rng.randint(-8, 40), 4)) for _ in range(5)]},
-    "rect_mapper": lambda rng, m, ps: {"shape": (span_shape(rng, m, 0), span_shape(rng, m, 1)),
+    "rect_mapper": lambda rng, m, ps: {"shape": (span_shape(rng, m, 0), span_shape(rng, m, 1)), "via_mesh": rng.random() < 0.35,
                                        "buffer": min(ps) / 2 if rng.random() < 0.85 else F(1, rng.choice([2, 16, 1024]))},
     "ds_apply_mask": lambda rng, m, ps: {"vals": vals(rng, m), "psf": rng.random() < 0.3 and ps[0] == ps[1]},
     "ds_noise_scaling": lambda rng, m, ps: {"vals": vals(rng, m), "plain": rng.random() < 0.6},
